@@ -366,7 +366,7 @@ fn traversal_case<const K: usize>(rep: &mut Report, idx: u64, t: &Tree<u32, K>, 
 }
 
 pub fn traversal(rep: &mut Report, tier: Tier) {
-    let (n2, n3, reps) = if tier == Tier::Quick { (3, 2, 2) } else { (4, 3, 3) };
+    let (n2, n3, reps) = if tier == Tier::Quick { (4, 2, 2) } else { (5, 3, 3) };
     rep.rule = "every tree shape (missing children allowed) built with scrambled arena indices x every start node x every skip_subtree position (single and repeated): DfsPre / DfsEdge / Bfs item streams incl. depth and remaining-sibling counters, size_hint bracket before every next(), index-order iterators, num_nodes, num_terminals, depth, depth_stats, path_to_node against a reference computed from the arena view; non-trivial: tree has >= 3 nodes".into();
     rep.bound = format!("K=2: <= {n2} inner nodes, K=3: <= {n3} inner nodes, {reps} index layouts each; exhaustive over shapes, start nodes and skip positions");
     rep.exhaustive = true;
@@ -531,7 +531,7 @@ fn ops_case<const K: usize>(rep: &mut Report, idx: u64, len: usize) {
 }
 
 pub fn tree_ops(rep: &mut Report, tier: Tier) {
-    let (cases, len) = if tier == Tier::Quick { (3000, 10) } else { (60000, 14) };
+    let (cases, len) = if tier == Tier::Quick { (20000, 12) } else { (400000, 16) };
     rep.rule = "seeded operation sequences over {add_child_node, try_remove_child, remove_child, remove_all_descendants, merge_child_with_parent, update_node} with live, stale and out-of-range indices, K in {2,3}; after every operation: executable wf (mirrored links, listed exactly once, leaf flag, single root, len()==reachable), Err => arena view unchanged, survivors keep index and value, removed set == subtree; non-trivial: sequence contains an Err and an index reuse".into();
     rep.bound = format!("{cases} sequences of length {len} for each K in {{2,3}}");
     for idx in 1..=cases as u64 {
